@@ -2300,9 +2300,10 @@ class Allocator:
                 allocation = allocs[client][idx]
                 if isinstance(allocation, TaskAllocation):
                     current_tasks.add(allocation.task)
-                elif isinstance(allocation, JoinPoint) and len(current_tasks) > 0:
-                    tasks.append(current_tasks)
-                    current_tasks = set()
+            # every join point except the initial one closes a step (which may be empty)
+            if idx > 0 and isinstance(allocs[0][idx], JoinPoint):
+                tasks.append(current_tasks)
+                current_tasks = set()
 
         return tasks
 
